@@ -98,6 +98,8 @@ struct Conv {
         }
         if (auto * X = dyn_cast<ExplicitCastExpr>(E))
             return json::Object{{"k", "cast"}, {"to", ty(X->getType())}, {"ck", X->getCastKindName()}, {"e", expr(X->getSubExpr())}, {"ln", line(X->getBeginLoc())}};
+        // C++20: `a != b` written against a type that only has operator== is stored as a rewritten operator; its meaning is the semantic form !(a == b)
+        if (auto * X = dyn_cast<CXXRewrittenBinaryOperator>(E)) return expr(X->getSemanticForm());
         if (isa<CXXThisExpr>(E)) return json::Object{{"k", "this"}};
         if (auto * X = dyn_cast<DeclRefExpr>(E)) {
             const ValueDecl * D = X->getDecl();
